@@ -417,7 +417,11 @@ func inlineRounds(root string, env []string, overlay map[string][]byte, note *In
 		progress := false
 		for _, pk := range pkgs {
 			if len(pk.Errors) > 0 || pk.Types == nil || pk.TypesInfo == nil {
-				note.Skipped = append(note.Skipped, pk.PkgPath+": not type-checked, helpers left alone")
+				why := ""
+				if len(pk.Errors) > 0 {
+					why = " (" + strings.Join(strings.Fields(pk.Errors[0].Error()), " ") + ")"
+				}
+				note.Skipped = append(note.Skipped, pk.PkgPath+": not type-checked, helpers left alone"+why)
 				continue
 			}
 			rel, _ := filepath.Rel(root, pkgDir(pk))
@@ -1316,7 +1320,10 @@ func modelLibrary(root string, env []string, overlay map[string][]byte, note *In
 				continue
 			}
 			var extra []string
-			astutil.Apply(f, func(c *astutil.Cursor) bool {
+			// innermost calls first: a modelled call inside the literal predicate of another modelled call
+			// (slices.IndexFunc(xs, func(x T) bool { return slices.ContainsFunc(ys, x.Eq) })) must be rewritten
+			// before the predicate's text is copied into the generated predicate function
+			astutil.Apply(f, nil, func(c *astutil.Cursor) bool {
 				call, ok := c.Node().(*ast.CallExpr)
 				if !ok {
 					return true
@@ -1329,7 +1336,7 @@ func modelLibrary(root string, env []string, overlay map[string][]byte, note *In
 				extra = append(extra, src)
 				note.Modelled = append(note.Modelled, orig+" in "+filepath.Base(pk.Fset.File(f.Pos()).Name())+" as "+name)
 				return true
-			}, nil)
+			})
 			if len(extra) == 0 {
 				continue
 			}
@@ -1508,6 +1515,7 @@ func (in *inliner) modelFor(call *ast.CallExpr, file *ast.File) (string, string)
 			// variables of the enclosing function used by the predicate become parameters of a
 			// generated predicate function; they must only be read
 			var capNames, capDecl []string
+			var capVars []*types.Var
 			seen := map[types.Object]bool{}
 			okCap := true
 			captured := func(id *ast.Ident) *types.Var {
@@ -1549,6 +1557,7 @@ func (in *inliner) modelFor(call *ast.CallExpr, file *ast.File) (string, string)
 						okCap = false
 					}
 					capNames = append(capNames, x.Name)
+					capVars = append(capVars, v)
 					capDecl = append(capDecl, x.Name+" "+ts)
 				}
 				return okCap
@@ -1575,14 +1584,16 @@ func (in *inliner) modelFor(call *ast.CallExpr, file *ast.File) (string, string)
 				}
 				call.Fun = ast.NewIdent(name)
 				args := []ast.Expr{call.Args[0]}
-				for _, cn := range capNames {
-					args = append(args, ast.NewIdent(cn))
+				for i, cn := range capNames {
+					id := ast.NewIdent(cn)
+					info.Uses[id] = capVars[i] // an enclosing modelled call sees the variable as captured too
+					args = append(args, id)
 				}
 				if fromLocal {
 					args = append(args, call.Args[1])
 				}
 				call.Args = args
-				return name, fmt.Sprintf("func %s(%s) %s {\n\tfor mdl_i, mdl_e := range s {\n\t\t_ = mdl_i\n\t\tif %s(%s) {\n\t\t\treturn %s\n\t\t}\n\t}\n\treturn %s\n}\n\n%s",
+				return name, fmt.Sprintf("func %s(%s) %s {\n\tfor mdl_i, mdl_e := range s {\n\t\t_ = mdl_i\n\t\t_ = mdl_e\n\t\tif %s(%s) {\n\t\t\treturn %s\n\t\t}\n\t}\n\treturn %s\n}\n\n%s",
 					name, strings.Join(params, ", "), res, pred, predArgs, strings.Replace(hit, "i", "mdl_i", 1), miss, predSrc)
 			}
 		}
